@@ -172,7 +172,9 @@ pub fn run(report: &Report, thorough: bool) -> Evidence {
 
     // ---------- (a2) fixed, suggestions on: history graph ----------
     {
-        let keys: Vec<Ev> = [('k', false), ('r', false), ('a', false), ('i', false), ('/', false), ('>', false), ('v', false), ('\'', false), (';', false), (')', false), ('k', true), ('z', true), ('d', true), ('e', true)]
+        // (the last seven keys emit regex-special ASCII characters: the typed word is pasted into a regex)
+        let keys: Vec<Ev> = [('k', false), ('r', false), ('a', false), ('i', false), ('/', false), ('>', false), ('v', false), ('\'', false), (';', false), (')', false), ('k', true), ('z', true), ('d', true), ('e', true),
+            ('\\', true), ('[', true), ('{', true), ('|', true), ('*', true), ('^', true), ('>', true), ('?', false), ('(', false), ('+', false)]
             .iter()
             .map(|&(c, g)| key_ev(c, g))
             .collect();
